@@ -98,6 +98,7 @@ func init() {
 		simkitFor("mm/vmm", "vmm"),
 		{Src: "engines/vmm/machine.go.txt", Dst: "mm/vmm/zz_verif_machine_test.go", Pkg: "vmm"},
 		{Src: "engines/vmm/c04.go.txt", Dst: "mm/vmm/zz_verif_c04_test.go", Pkg: "vmm"},
+		{Src: "engines/vmm/c07.go.txt", Dst: "mm/vmm/zz_verif_c07_test.go", Pkg: "vmm"},
 	}
 	vmmAnchors := []string{"kernel/mm/vmm/map.go", "kernel/mm/vmm/pdt.go", "kernel/mm/vmm/vmm.go", "kernel/mm/vmm/addr_space.go", "kernel/mm/vmm/fault_amd64.go", "kernel/mm/vmm/vmm_constants_amd64.go", "kernel/mm/page.go", "kernel/multiboot/multiboot.go"}
 	vmmReal := []string{"vmm.Map/Unmap/Translate/MapRegion/IdentityMapRegion/MapTemporary", "PageDirectoryTable.Init/Map/Unmap/Activate", "walk/pteForAddress over the recursive mapping", "vmm.Init, setupPDTForKernel, reserveZeroedFrame, installFaultHandlers", "pageFaultHandler / generalProtectionFaultHandler as registered by the kernel", "EarlyReserveRegion", "multiboot.VisitElfSections decoding a generated ELF-sections tag"}
@@ -112,5 +113,12 @@ func init() {
 		Rule: "C04: one evaluation = one seeded history (up to 40 operations: Map, Unmap, Translate, MapRegion, IdentityMapRegion, MapTemporary, pdt.Map/Unmap on active and inactive spaces, Activate, new address spaces through the real pdt.Init, planted huge-page entries) over a pool of pages built to share or not share every table level, with seeded allocation/temporary-mapping failures; after every operation an independent walker compares every present leaf of every address space with the page->entry model, checks new levels, TLB invalidations, bit-for-bit preservation of the active space for inactive-space operations and Translate. C04F: a short fault-free history is executed, then re-executed once per (operation j, allocation k) failing exactly that allocation (systematic fault enumeration). Non-trivial = >= 4 operations and at least one mapping established or failure injected; distinct = hash of the operation sequence.",
 		Assume:   []string{"ideal MMU: no stale TLB entries, no paging-structure caches (the TLB is an oracle input: which pages were invalidated)", "the data path of temporary mappings is shimmed (identity page of the frame)", "the arithmetic computing the next table's virtual address from the entry's virtual address is not exercised (nextAddrFn ignores its argument)"},
 		Required: []string{"c04.new_levels_1", "c04.new_levels_2", "c04.new_levels_3", "c04.op_on_inactive_space", "c04.alloc_fail_in_map", "c04.alloc_fail_in_region", "c04.huge_page_error", "c04.new_space", "c04.activate", "c04.region_mapped", "c04f.fault_points_enumerated"},
+	})
+	addProp(&propSpec{
+		ID: "C07", Engine: "vmm", Level: "exploration",
+		Subs: []subCheck{{Name: "C07", QuickRuns: 60000, QuickMs: 30000, ThoroughRuns: 6000000, ThoroughMs: 500000}},
+		Rule: "one evaluation = one seeded history (up to 60 requests) of EarlyReserveRegion / MapRegion / IdentityMapRegion from five simulated boot-time subsystems, with sizes 0, 1, page+-1, many pages, everything-left, left+1, within a page of 2^64, and a large first reservation that brings the cursor close to exhaustion; the map seam records every (page, frame, flags) call and fails at a seeded call. Every grant is checked against all earlier grants; every refusal must leave the cursor where it was. Non-trivial = at least 3 requests; distinct = hash of (final cursor, request count, refusals).",
+		Assume:   []string{"the map seam is a recorder here; region mapping through the real Map on the simulated MMU is part of C04", "a fitting request that is refused is counted (probe) but not reported: the statement only constrains successful reservations and non-fitting requests"},
+		Required: []string{"c07.reserved", "c07.refused_not_fitting", "c07.mapregion_refused", "c07.region_checked", "c07.map_fail_propagated", "c07.size_near_2^64"},
 	})
 }
